@@ -1,4 +1,5 @@
 import re
+import re
 """C15 — legacy property migration.  C15.tbl (perform() arms vs the bundled database), C15.sites (the four call sites)."""
 from sa import core, db as dbm, tables, decision, flow
 from . import common
@@ -391,9 +392,80 @@ def rule_item_map(c, prog, R="C15.sites"):
         c.violation(R, "xml-reader|presence-map-per-element", "the map handed to deserialize_properties is created anew for every <Properties> element of an Item: the presence test of a migration target does not see values read from an earlier element", fn.sp, instance=inst)
 
 
+def xml_written_groups(prog, d):
+    """{(declaring class, canonical property the element is read back into): {(DOM key, 'plain'|'migrated')}} for every
+    group of two or more DOM keys of one instance that the XML writer resolves to the same property"""
+    from . import C06
+    xt = C06.extract_sym(prog, prog.fn("rbx_xml::core::find_property_descriptors"))
+    groups = {}
+    for ck in sorted(d.classes):
+        names = set()
+        for a in d.chain(ck):
+            names |= set(d.classes[a].props)
+        for nm in names:
+            r = C06.evaluate(xt, d, ck, nm)
+            if not (isinstance(r, tuple) and isinstance(r[0], tuple) and isinstance(r[1], tuple)):
+                continue
+            scls, sname = r[1]
+            sp = d.classes[scls].props[sname]
+            if sp.kind == "Canonical" and sp.ser == "Migrate":
+                tgt = d.find_prop(ck, sp.migrate_to)
+                if tgt is None:
+                    continue
+                if tgt.kind == "Alias":
+                    tgt = d.find_prop(ck, tgt.alias_for) or tgt
+                groups.setdefault((tgt.cls if isinstance(tgt.cls, str) else getattr(tgt.cls, "name", scls), tgt.name), set()).add((nm, "migrated"))
+            else:
+                groups.setdefault((r[0][0], r[0][1]), set()).add((nm, "plain"))
+    return {k: v for k, v in groups.items() if len(v) > 1}
+
+
+def rule_one(c, prog, d, R="C15.one"):
+    """one element per logical property per instance"""
+    c.rule(R, "XML writer: the DOM keys of one instance that denote the same property (canonical name, aliases, legacy names that migrate to it — enumerated from the bundled database through the writer's own descriptor lookup) produce one element: either the writer keeps a per-instance record of what it has written / ranks the keys before writing, or every such group is covered by its `explicit canonical key present` test; otherwise two elements are written and the reader keeps whichever comes last in key order, so which value survives depends on how the properties are spelled")
+    fn = prog.fn("rbx_xml::serializer::serialize_instance")
+    # a general de-duplication: a set / map local that is filled and consulted inside the property loop
+    dedupe = False
+    for st in core.walk_lets(fn.body):
+        ty = (st["pat"].get("ty") or "") + ((st.get("init") or {}).get("ty") or "")
+        if st["pat"].get("k") == "Binding" and re.search(r"(Hash|BTree|Ustr|Index)(Set|Map)<", ty):
+            lid = st["pat"]["lid"]
+            uses = {x["m"] for x in core.walk_fn(fn) if x.get("k") == "MethodCall" and core.strip(x["recv"]).get("lid") == lid}
+            if uses & {"insert", "entry"} and (uses & {"contains", "contains_key", "get", "entry", "insert"}):
+                dedupe = True
+    inst = "xml-writer:one-element-per-property"
+    if dedupe:
+        c.ok(R, inst)
+        return
+    groups = xml_written_groups(prog, d)
+    c.rules[R]["obligations"] += len(groups)
+    # covered by the existing test `instance.properties.contains_key(migration.new_property_name)`: migrated keys plus
+    # the canonical new name itself — and only one migrated key
+    open_groups = {}
+    for (cls, prop), members in groups.items():
+        plain = sorted(n for n, k in members if k == "plain")
+        mig = sorted(n for n, k in members if k == "migrated")
+        if len(mig) == 1 and plain == [prop]:
+            continue
+        open_groups[(cls, prop)] = (plain, mig)
+    c.rules[R]["discharged"] += len(groups) - len(open_groups)
+    if not open_groups:
+        c.ok(R, inst)
+        return
+    kinds = {"alias": [g for g, (p, m) in open_groups.items() if len(p) > 1 and not m], "two-legacy": [g for g, (p, m) in open_groups.items() if len(m) > 1], "legacy+alias": [g for g, (p, m) in open_groups.items() if m and any(x != g[1] for x in p)]}
+    ex = []
+    for label, gs in kinds.items():
+        if gs:
+            g = sorted(gs)[0]
+            p_, m_ = open_groups[g]
+            ex.append(f"{label}: {len(gs)} groups, e.g. {g[0]}.{g[1]} <- {' + '.join(p_ + m_)}")
+    c.violation(R, "xml-writer|spellings-written-independently", f"serialize_instance resolves and writes every DOM key on its own; {len(open_groups)} groups of keys in the bundled database denote one property without being covered by its `contains_key(new_property_name)` test ({'; '.join(ex)}): an instance carrying two of them is written with two elements for one property and reads back with the value of whichever key sorts last — the canonical value loses to its lower-case alias, an explicit value stored under an alias loses to a legacy one, and rbx_binary picks the other one", fn.sp, instance=inst)
+
+
 def run(c, prog):
     d = dbm.Database()
     rule_win(c, prog)
+    rule_one(c, prog, d)
     rule_tbl(c, prog, d)
     rule_sites(c, prog)
     rule_memo(c, prog)
